@@ -3,14 +3,78 @@
 package main
 
 import (
+	"fmt"
 	"os"
 	"strings"
 	"time"
+	"unicode/utf8"
+
+	"rare/pkg/expressions"
 )
+
+// trim <bytes>: strings.TrimSpace byte for byte and expressions.Truthy (twice: the model reports both its
+// mirror of the Go code and the `truthy` of the shared expression model).
+func trimRun(f []string) string {
+	s := string(UnHex(f[1]))
+	t := 0
+	if expressions.Truthy(s) {
+		t = 1
+	}
+	return fmt.Sprintf("ok %s t=%d m=%d", HexS(strings.TrimSpace(s)), t, t)
+}
+
+// trimGen: strings over white space (ASCII and every multi-byte White_Space rune), look-alikes, pieces of
+// their encodings, invalid bytes and letters; all strings up to a small length over a dense alphabet.
+func trimGen(r *Rand, tier string) []string {
+	pieces := []string{" ", "\t", "\n", "\v", "\f", "\r", "\u0085", "\u00a0", "\u1680", "\u2000", "\u2001", "\u2002", "\u2003",
+		"\u2004", "\u2005", "\u2006", "\u2007", "\u2008", "\u2009", "\u200a", "\u2028", "\u2029", "\u202f", "\u205f", "\u3000",
+		"\u200b", "\u180e", "\ufeff", "\u2060", "\u00a1", "\u0084", "\u167f", "\u1681", "\u1fff", "\u200c", "\u2027", "\u202a", "\u3001", "\u2fff",
+		"\x80", "\x85", "\xa0", "\xc2", "\xe1", "\xe2", "\xe3", "\xe2\x80", "\xe1\x9a", "\xe3\x80", "\xc0\xa0", "\xe0\x80\xa0", "\xf0\x80\x80\xa0",
+		"\xed\xa0\x80", "\xf4\x90\x80\x80", "\xff", "\xfe", "\xf0\x9f\x98\x80", "\xf0\x9f", "\x00", "\x1c", "\x1f", "\x7f",
+		"a", "b", "0", "é", "\ufffd", "\xef\xbf", "\xbd"}
+	n := 3000
+	if tier == "thorough" {
+		n = 60000
+	}
+	var out []string
+	for i := 0; i < n; i++ {
+		k := Pick(r, []int{0, 1, 1, 2, 2, 3, 3, 4, 5, 6, 9})
+		var sb strings.Builder
+		for j := 0; j < k; j++ {
+			if r.Chance(1, 12) {
+				sb.WriteByte(byte(r.Intn(256)))
+			} else {
+				sb.WriteString(Pick(r, pieces))
+			}
+		}
+		out = append(out, "trim "+HexS(sb.String()))
+	}
+	// exhaustive: every string of length <= L over an alphabet of bytes that make up the spaces' encodings
+	alpha := []byte{' ', '\t', 'a', 0x80, 0x85, 0xa0, 0xc2, 0xe2, 0xe3, 0x9a, 0xe1, 0x81, 0x9f, 0xa8}
+	L := 3
+	if tier == "thorough" {
+		L = 4
+	}
+	var rec func(cur []byte)
+	rec = func(cur []byte) {
+		out = append(out, "trim "+Hex(cur))
+		if len(cur) == L {
+			return
+		}
+		for _, b := range alpha {
+			rec(append(append([]byte{}, cur...), b))
+		}
+	}
+	rec(nil)
+	return out
+}
 
 func c01Run(f []string) string {
 	if f[0] == "ptrace" {
 		return pipeTraceRun(f)
+	}
+	if f[0] == "trim" {
+		return trimRun(f)
 	}
 	if strings.HasPrefix(f[0], "pmut") {
 		return "rejected" // the harness damaged this log itself: no run of the real code produces it
@@ -24,7 +88,8 @@ func c01Gen(r *Rand, tier string) []string {
 	}
 	out := pipeGen(r, tier)
 	out = append(out, pipeTraceGen(r, tier)...)
-	return append(out, pipeMutGen(r, tier)...)
+	out = append(out, pipeMutGen(r, tier)...)
+	return append(out, trimGen(NewRand(r.U64()), tier)...)
 }
 
 func c01Stats(cases []string) map[string]int {
@@ -35,6 +100,11 @@ func c01Stats(cases []string) map[string]int {
 			traceStats(st, c)
 		} else if strings.HasPrefix(c, "pmut") {
 			st["trace.damaged."+strings.Fields(c)[0]]++
+		} else if strings.HasPrefix(c, "trim ") {
+			st["trim.cases"]++
+			if b := UnHex(strings.Fields(c)[1]); !utf8.Valid(b) {
+				st["trim.invalid-utf8"]++
+			}
 		} else {
 			pipe = append(pipe, c)
 		}
